@@ -43,6 +43,19 @@ def run_one(pid, tier, replay=None):
         traceback.print_exc()
         print(f"MACHINERY-ERROR property={pid}: unhandled exception in driver", file=sys.stderr)
         return 2
+    except BaseException as e:   # noqa: B902
+        from lib import fakesock
+        if isinstance(e, fakesock.WouldBlockForever):
+            # a library call of this driver waits for bytes that will never arrive (on a real socket: for ever, or until the
+            # timeout): no property is compatible with a call that does not come back.  Reported as a violation, never as
+            # a bare traceback with exit status 1.
+            tb = "".join(traceback.format_exception(type(e), e, e.__traceback__)[-12:])
+            rep.violation(f"{pid}/a-call-waits-for-a-reply-that-will-never-come", "a call made by this check blocks on the socket: " + str(e),
+                          {"traceback": tb})
+            return rep.finish()
+        traceback.print_exc()
+        print(f"MACHINERY-ERROR property={pid}: driver interrupted by {type(e).__name__}", file=sys.stderr)
+        return 2
     return rep.finish()
 
 
